@@ -14,12 +14,18 @@
 // direct = what the call should delegate to: the back end of the method name called directly (boost quadrature,
 //   Integrate_Gauss_Legendre, Find_Epsilon + Integrate), nested by the harness itself level by level with the same
 //   method_parameter at every level, on the same user function.  (Not recomputed, i.e. the value is repeated, for "Trapezoidal" in two
-//   and three dimensions and "Tanh-Sinh" in three: these two ignore the parameter and cost 1e5..1e6 evaluations per call there.)
+//   and three dimensions and "Tanh-Sinh" in three when the call itself took more than 1.5e6 evaluations of the user's function: the direct
+//   nesting costs as many again.)
 // neval/digest/min/max describe the arguments with which the user's function was called by the library.  The azimuth of a vector is
 //   recorded as the representative of atan2(vy,vx) modulo 2 pi that lies within pi of the middle of the azimuth limits of the call, so
 //   that ranges anywhere on the real line (negative, beyond 2 pi) can be compared with their limits.
 //   session <k> <call> ;; <call> ;; ... (k calls, each one of the four lines above)
 //       -> for every call: its output as above, then the value of the same call made in a process that has made no other call, then '|'
+//   preinit <call>  (one of the four lines above)
+//       -> the output of the call made BEFORE main, during the static initialisation of the user's translation unit (this file, which the
+//          link line puts in front of the library: its namespace-scope objects are initialised before those of the library's own
+//          translation units), then the value of the same call made from main.  The harness executes itself anew with the call in the
+//          environment; the object `before_main` at the end of this file makes the call and ends the process before main is entered.
 //   A session is a call history.  Every case line (session or not) is answered by a process of its own forked from a worker that never
 //   calls the library; in a session the reference values come from children forked from that process before it has called the
 //   library, then the k calls are made one after the other in it.
@@ -139,8 +145,9 @@ static double direct_nd(const std::string& method, const std::function<double(co
 	return direct_1d(method, fk, lim[2 * level], lim[2 * level + 1], p, known);
 }
 
-static bool costly3(const std::string& method) { return method == "Trapezoidal" || method == "Tanh-Sinh"; }
-static bool costly2(const std::string& method) { return method == "Trapezoidal"; }
+// the direct nesting of these two is as expensive as the call: it is left out when the call itself was expensive
+static bool costly3(const std::string& method, long n) { return (method == "Trapezoidal" || method == "Tanh-Sinh") && n > 1500000; }
+static bool costly2(const std::string& method, long n) { return method == "Trapezoidal" && n > 1500000; }
 
 static void do_call(const std::string& op, vh::Reader& r, vh::Out& o)
 {
@@ -180,7 +187,7 @@ static void do_call(const std::string& op, vh::Reader& r, vh::Out& o)
 		};
 		double val = Integrate_2D(f, lim[0], lim[1], lim[2], lim[3], method, p);
 		std::function<double(const double*)> g = [&](const double* q) { return u(q[0], q[1], 0); };
-		double dir = costly2(method) ? val : direct_nd(method, g, 2, lim, p, pt, 0, known);
+		double dir = costly2(method, rec.n) ? val : direct_nd(method, g, 2, lim, p, pt, 0, known);
 		o.f(val);
 		o.f(dir);
 		rec.put(o, 2);
@@ -199,7 +206,7 @@ static void do_call(const std::string& op, vh::Reader& r, vh::Out& o)
 		};
 		double val = Integrate_3D(f, lim[0], lim[1], lim[2], lim[3], lim[4], lim[5], method, p);
 		std::function<double(const double*)> g = [&](const double* q) { return u(q[0], q[1], q[2]); };
-		double dir = costly3(method) ? val : direct_nd(method, g, 3, lim, p, pt, 0, known);
+		double dir = costly3(method, rec.n) ? val : direct_nd(method, g, 3, lim, p, pt, 0, known);
 		o.f(val);
 		o.f(dir);
 		rec.put(o, 3);
@@ -228,7 +235,7 @@ static void do_call(const std::string& op, vh::Reader& r, vh::Out& o)
 			double rr = q[0], th = std::acos(q[1]), ph = q[2];
 			return rr * rr * u(rr * std::sin(th) * std::cos(ph), rr * std::sin(th) * std::sin(ph), rr * std::cos(th));
 		};
-		double dir = costly3(method) ? val : direct_nd(method, g, 3, lim, p, pt, 0, known);
+		double dir = costly3(method, rec.n) ? val : direct_nd(method, g, 3, lim, p, pt, 0, known);
 		o.f(val);
 		o.f(dir);
 		rec.put(o, 3);
@@ -310,6 +317,78 @@ static void session_body(vh::Reader& r, vh::Out& o)
 	}
 }
 
+// ---------- calls made before main ----------
+// The text of the call travels in the environment of a new execution of this program; the answer comes back through a pipe.
+static std::string before_main_output(const vh::Reader& r0, size_t start)
+{
+	std::string text;
+	for(size_t j = start; j < r0.t.size() && r0.t[j] != "#"; j++)
+		text += (j > start ? " " : "") + r0.t[j];
+	int pfd[2];
+	if(pipe(pfd) != 0)
+		return "HARNESSERR no_pipe";
+	fflush(stdout);
+	fflush(stderr);
+	pid_t pid = fork();
+	if(pid < 0)
+		return "HARNESSERR no_fork";
+	if(pid == 0)
+	{
+		close(pfd[0]);
+		setenv("C13_BEFORE_MAIN", text.c_str(), 1);
+		setenv("C13_BEFORE_MAIN_FD", std::to_string(pfd[1]).c_str(), 1);
+		char arg0[] = "C13-before-main";
+		char* args[] = {arg0, nullptr};
+		execv("/proc/self/exe", args);
+		_exit(76);
+	}
+	close(pfd[1]);
+	std::string ans;
+	char b[4096];
+	ssize_t k;
+	while((k = read(pfd[0], b, sizeof b)) > 0)
+		ans.append(b, k);
+	close(pfd[0]);
+	int st = 0;
+	waitpid(pid, &st, 0);
+	if(WIFSIGNALED(st))
+		return "CRASH sig=" + std::to_string(WTERMSIG(st));
+	if(WIFEXITED(st) && (WEXITSTATUS(st) == 76 || WEXITSTATUS(st) == 77))
+		return "HARNESSERR before_main";
+	if(!WIFEXITED(st) || WEXITSTATUS(st) != 0 || ans.empty())
+		return "EXIT";
+	return ans;
+}
+
+static void preinit_body(vh::Reader& r, vh::Out& o)
+{
+	if(!r.more() || !is_op(r.t[r.i]))
+	{
+		o.w("HARNESSERR preinit_shape");
+		return;
+	}
+	std::string early = before_main_output(r, r.i);
+	if(early == "EXIT")
+	{
+		fflush(stdout);
+		fflush(stderr);
+		_exit(1);		 // the library terminated the process: recorded by the runner like any other call that does so
+	}
+	if(early.compare(0, 5, "CRASH") == 0)
+	{
+		int sig = atoi(early.c_str() + 10);
+		signal(sig, SIG_DFL);
+		raise(sig);
+		_exit(1);
+	}
+	vh::Out here;
+	std::string op = r.word();
+	do_call(op, r, here);
+	std::string t = here.s.str();
+	o.w(early);
+	o.w(t.substr(0, t.find(' ')));
+}
+
 // Every case line is answered by a process of its own, forked from the runner's worker, which itself never calls the library: the statics
 // of the library are those of a fresh process at the start of every case, the only call histories are the ones spelled out in the
 // session lines, and a replay of a line alone sees what the run saw.  When the child ends without an answer (the library terminated the
@@ -338,6 +417,8 @@ static void handler(vh::Reader& r, vh::Out& o)
 		std::string op = r.word();
 		if(op == "session")
 			session_body(r, oc);
+		else if(op == "preinit")
+			preinit_body(r, oc);
 		else
 			do_call(op, r, oc);
 		std::string t = oc.s.str() + "\n";
@@ -375,3 +456,39 @@ static void handler(vh::Reader& r, vh::Out& o)
 	o.w(ans);
 }
 int main(int argc, char** argv) { return vh::run(argc, argv, handler, 60); }
+
+// The last namespace-scope object of the user's translation unit.  When the environment carries a call, it is made here, before main and
+// (with the link order translation unit first, library after it) before the namespace-scope objects of the library's translation units
+// are initialised; the process ends without entering main.
+struct BeforeMain
+{
+	BeforeMain()
+	{
+		const char* text = getenv("C13_BEFORE_MAIN");
+		const char* fdt	 = getenv("C13_BEFORE_MAIN_FD");
+		if(text == nullptr || fdt == nullptr)
+			return;
+		static std::ios_base::Init streams;
+		int fd = atoi(fdt);
+		unsetenv("C13_BEFORE_MAIN");
+		unsetenv("C13_BEFORE_MAIN_FD");
+		alarm(58);
+		vh::Reader r(text);
+		vh::Out o;
+		std::string op = r.word();
+		do_call(op, r, o);
+		std::string t = o.s.str();
+		size_t off	  = 0;
+		while(off < t.size())
+		{
+			ssize_t k = write(fd, t.c_str() + off, t.size() - off);
+			if(k <= 0)
+				break;
+			off += k;
+		}
+		fflush(stdout);
+		fflush(stderr);
+		_exit(0);
+	}
+};
+static BeforeMain before_main;
